@@ -85,6 +85,47 @@ def run_loopsem(by_D, mode, run, simulate_args=None):
     return verdicts, out_lines, states, distinct
 
 
+def continuous_programs():
+    """programs with continuous draws whose parameters depend on the state, each with its derandomised abstract
+    program: with numpy's primitive generators replaced by the constant z a draw is loc + scale*z, hence a
+    deterministic polynomial assignment (Normal(m, s**2) -> m + s*z for s >= 0, Uniform(a, b) -> a + (b - a)*z,
+    Laplace(m, b) -> m + b*z, Exponential(1/m) -> m*z, Gamma(k, t) -> t*z)"""
+    ONE = ()
+
+    def V(v, e=1):
+        return ((v, e),)
+
+    def asg(v, poly, cond=("true",)):
+        return ("assign", v, [(F(1), poly)], cond, v)
+
+    def prog(vars_, init, body):
+        return {"vars": sorted(vars_), "s0": {}, "guard": ("true",), "init": [asg(v, ([(F(c), ONE)] if c else [])) for v, c in init], "body": body}
+    out = []
+
+    def add(name, text, build):
+        out.append((name, text, build))
+    add("normal_loc_and_scale", "s = 1\nx = 0\nwhile true:\n    s = 2*s\n    x = Normal(s, s**2)\nend\n",
+        lambda z: prog(["s", "x"], [("s", 1), ("x", 0)], [asg("s", [(F(2), V("s"))]), asg("x", [(1 + z, V("s"))])]))
+    add("normal_constant_mean_growing_variance", "s = 1\nx = 0\ny = 0\nwhile true:\n    s = 2*s\n    x = Normal(3, s**2)\n    y = y + x\nend\n",
+        lambda z: prog(["s", "x", "y"], [("s", 1), ("x", 0), ("y", 0)],
+                       [asg("s", [(F(2), V("s"))]), asg("x", [(F(3), ONE), (z, V("s"))]), asg("y", [(F(1), V("y")), (F(1), V("x"))])]))
+    add("uniform_moving_interval", "a = 0\nx = 0\nwhile true:\n    a = a + 1\n    x = Uniform(a, 3*a)\nend\n",
+        lambda z: prog(["a", "x"], [("a", 0), ("x", 0)], [asg("a", [(F(1), V("a")), (F(1), ONE)]), asg("x", [(1 + 2 * z, V("a"))])]))
+    add("laplace_scale_and_location", "b = 1\nx = 0\ny = 0\nwhile true:\n    b = 2*b\n    x = Laplace(1, b)\n    y = Laplace(b, 2)\nend\n",
+        lambda z: prog(["b", "x", "y"], [("b", 1), ("x", 0), ("y", 0)],
+                       [asg("b", [(F(2), V("b"))]), asg("x", [(F(1), ONE), (z, V("b"))]), asg("y", [(F(1), V("b")), (2 * z, ONE)])]))
+    add("exponential_rate", "m = 1\nx = 0\nwhile true:\n    m = 2*m\n    x = DistExp(1/m)\nend\n",
+        lambda z: prog(["m", "x"], [("m", 1), ("x", 0)], [asg("m", [(F(2), V("m"))]), asg("x", [(z, V("m"))])]))
+    add("gamma_scale", "t = 1\nx = 0\nwhile true:\n    t = 2*t\n    x = Gamma(2, t)\nend\n",
+        lambda z: prog(["t", "x"], [("t", 1), ("x", 0)], [asg("t", [(F(2), V("t"))]), asg("x", [(z, V("t"))])]))
+    fcond = ("atom", [(F(1), V("f"))], "==", [(F(1), ONE)])
+    add("normal_in_branch", "f = 0\nx = 0\nwhile true:\n    f = Bernoulli(1/2)\n    if f == 1:\n        x = Normal(x, 4)\n    else:\n        x = x - 1\n    end\nend\n",
+        lambda z: prog(["f", "x"], [("f", 0), ("x", 0)],
+                       [("draw", "f", ("bernoulli", F(1, 2)), ("true",), "f"),
+                        ("if", [fcond], [[asg("x", [(F(1), V("x")), (2 * z, ONE)])]], [asg("x", [(F(1), V("x")), (F(-1), ONE)])])]))
+    return out
+
+
 def main(tier, seed):
     run = Run("C12", "model_checking", tier, seed)
     quick = run.tier == "quick"
@@ -125,6 +166,16 @@ def main(tier, seed):
     jobs = [{"kind": "simulate", "id": it["id"], "text": it["text"], "N": it.get("N", N), "want": ["parsed"], "max_runs": 3000,
              "timeout": 240} for it in items]
     results = pool.run_jobs(jobs, per_job_timeout=240)
+    # continuous samplers: every draw must be location + scale * primitive for the parameters of the CURRENT state
+    cont_items, cont_jobs = [], []
+    for name, text, build in continuous_programs():
+        for z in (F(0), F(1, 2), F(2)):
+            it = {"id": f"simcont-{name}-z{z.numerator}_{z.denominator}", "text": text, "T": build(z), "N": 4, "z": str(z)}
+            cont_items.append(it)
+            cont_jobs.append({"kind": "simulate", "id": it["id"], "text": text, "N": 4, "want": [], "max_runs": 200, "timeout": 120,
+                              "fake_z": str(z)})
+    results.update(pool.run_jobs(cont_jobs, per_job_timeout=120, fresh_each=True))
+    items += cont_items
     by_D, meta = {}, {}
     n_runs = 0
     for it in items:
@@ -159,7 +210,7 @@ def main(tier, seed):
                                   "runs": v["runs"], "paths": v["paths"]})
 
     # ---- spec -> code: behaviours generated by TLC replayed into the simulator
-    gen_items = [it for it in items if it["T"] is not None][: (12 if quick else 60)]
+    gen_items = [it for it in items if it["T"] is not None and not it["id"].startswith("simcont-")][: (12 if quick else 60)]
     gby_D = {}
     for it in gen_items:
         P = gen.instantiate(it["T"], {})
